@@ -49,8 +49,14 @@ ASSUMPTIONS = [
 # ------------------------------------------------------------------ containers
 
 AUDIO_SHAPES = [(1,), (7,), (7, 2), (5, 3)]
-ARRAY_SHAPES = [(1,), (7,), (7, 1), (7, 2), (5, 3), (0,), (2, 3, 4)]
-ARRAY_DTYPES = ["int16", "int32", "int64", "uint8", "float32", "float64"]
+# rank 0 (a scalar dataset / 0-d array: every one of these four containers can store one), rank 1..5,
+# singleton and empty axes at every rank
+ARRAY_SHAPES = [(), (1,), (7,), (1, 1), (7, 1), (7, 2), (5, 3), (0,), (0, 2), (2, 3, 4), (3, 0, 2),
+                (2, 1, 3, 2), (1, 2, 1, 2, 1)]
+# "T!" = dtype T with values over its whole range (64-bit integers beyond 2**53, which no float64
+# intermediate can carry)
+ARRAY_DTYPES = ["int16", "int32", "int64", "uint8", "float32", "float64", "int8", "uint16", "float16",
+                "int64!", "uint64!"]
 REQUESTED = [None, "int16", "int32", "float32", "float64"]
 
 CONTAINERS = {
@@ -72,7 +78,22 @@ CONTAINERS = {
 def _values(seed, shape, dtype, offset=0, full_range=False):
     n = int(np.prod(shape))
     x = sig.signal(seed, n, offset=offset)
+    if str(dtype).endswith("!"):
+        dtype, full_range = str(dtype)[:-1], True
     dt = np.dtype(dtype)
+    if dt.itemsize == 8 and dt.kind in "iu" and full_range:
+        # |x| < 2**4: odd values up to ~2**62 in magnitude, nearly all of them beyond 2**53
+        v = np.round(x * 2.0 ** 40).astype(np.int64) * (1 << 18) + 12345
+        info = np.iinfo(dt)
+        if dt.kind == "u":
+            v = v.astype(np.uint64) + np.uint64(1 << 63)
+            ext = [info.max, 0, (1 << 53) + 1, (1 << 63) + 1]
+        else:
+            ext = [info.max, info.min, (1 << 53) + 1, -(1 << 53) - 1]
+        k = min(n, len(ext))
+        v = v.astype(dt)
+        v[:k] = np.array(ext[:k], dtype=dt)
+        return v.reshape(shape)
     if dt.kind == "f":
         v = (x * 100.0).astype(dt)
     else:
@@ -169,6 +190,11 @@ def _accesses(container):
     return acc
 
 
+def _rt_accesses(container):
+    """roundtrip only: also wds_read_signal("utt" + suffix, bytes), which has neither dtype nor key"""
+    return _accesses(container) + ([("wds", None)] if CONTAINERS[container][0] is not None else [])
+
+
 def _read(path, dotted, access, force, dtype, key):
     from pydrobert.speech import util
 
@@ -188,6 +214,12 @@ def _read(path, dotted, access, force, dtype, key):
         with open(path, "rb") as f:
             b = io.BytesIO(f.read())
         return _call(lambda: util.read_signal(b, dtype=dtype, **kw))
+    if access == "wds":
+        if dtype is not None or key is not None or force is not None:
+            raise core.HarnessError("wds_read_signal takes neither dtype, key nor force_as")
+        with open(path, "rb") as f:
+            data = f.read()
+        return _call(lambda: util.wds_read_signal("utt" + os.path.splitext(path)[1], data))
     raise core.HarnessError(access)
 
 
@@ -241,11 +273,14 @@ def _rt_check(container, layout, key, which, access, force, req, path, dotted, a
         info = np.iinfo(req)
         for name in ([which] if which != "any" else ["sig", "other", "other2"]):
             a = arrays[name]
-            if a.size and not (a.min() >= info.min and a.max() <= info.max):
+            if a.size and not (a.min().item() >= info.min and a.max().item() <= info.max):
                 return None, "skipped"
+    if access == "wds" and (req is not None or key is not None):
+        return None, "skipped"
     r = _read(path, dotted, access, force, req, key)
-    tags = dict(what="roundtrip", container=container, via=("inferred" if force is None else force),
-                stream=(access in ("file", "bytesio")))
+    tags = dict(what="roundtrip", container=container,
+                via=("wds" if access == "wds" else "inferred" if force is None else force),
+                stream=(access in ("file", "bytesio", "wds")), rank0=(arrays["sig"].ndim == 0))
     desc = "%s %r stored %s layout=%s key=%r access=%s force_as=%r dtype=%r" % (
         container, arrays["sig"].shape, stored_dt, layout, key, access, force, req)
     if r[0] == "exc":
@@ -286,7 +321,7 @@ def _roundtrip(pt, seed):
                 os.makedirs(sub)
                 files[layout] = _rt_file(container, layout, shape, dtype, seed, sub)
             path, dotted, arrays = files[layout]
-            for access, force in _accesses(container):
+            for access, force in _rt_accesses(container):
                 for req in REQUESTED:
                     case = dict(kind="roundtrip", container=container, shape=list(shape), stored=dtype,
                                 layout=layout, key=key, which=which, access=access, force_as=force,
@@ -304,7 +339,7 @@ def _roundtrip(pt, seed):
                        skipped=skipped, obs=sorted(map(str, obs)),
                        sample=dict(container=container, shape=list(shape), stored=dtype,
                                    layouts=[list(map(str, l)) for l in _layouts(container)],
-                                   accesses=[list(map(str, a)) for a in _accesses(container)],
+                                   accesses=[list(map(str, a)) for a in _rt_accesses(container)],
                                    requested=REQUESTED))
 
 
@@ -325,6 +360,9 @@ SPH_KMAX = {"quick": 4, "thorough": 6}
 # with every mandatory field beyond byte 1024
 SPH_HEADERS = ["extra", "h1025", "h1500", "extra2048", "h4000"]
 SPH_CHANNELS = [1, 2, 3, 4, 5, 6, 7]               # frames of 2..14 bytes; 6, 10, 14 do not divide 16384
+# "all channel counts": ONE frame as large as / larger than the reader's 16384-byte read (a few frames each)
+SPH_WIDE_CHANNELS = [8191, 8192, 8193, 16385]
+SPH_WIDE_COUNTS = [1, 2, 3]
 
 
 def _sph_counts(channels, kmax):
@@ -1134,6 +1172,7 @@ def subchecks(tier, seed):
     rt = [(c, list(s), d) for c, spec in CONTAINERS.items() for s in spec[2] for d in spec[3]]
     kmax = SPH_KMAX[tier]
     sr = [(c, ch, n) for c in ("sph01", "sph10") for ch in SPH_CHANNELS for n in _sph_counts(ch, kmax)]
+    sr += [(c, ch, n) for c in ("sph01", "sph10") for ch in SPH_WIDE_CHANNELS for n in SPH_WIDE_COUNTS]
     wds_pts, fams = _wds_points(tier, seed)
     sizes = {n: len(v[1]) for n, v in _seed_files(seed).items()}
     hist = [(alph, depth, i) for alph, depth in HIST_PLAN[tier] for i in range(len(_hist_calls(alph)))]
@@ -1179,7 +1218,8 @@ def subchecks(tier, seed):
             "sph_reads", sr, lambda p: _sph_reads(p, seed),
             "16-bit PCM SPHERE files from mc/refs/sphere.py; per point (byte order, channels 1..7, "
             "frame count in {k*q-1..k*q+1, floor(k*16384/f)-1..+1 : k=1..%d}, f = frame bytes, q = "
-            "16384//f, i.e. files of 1..%d reads of 16384 bytes) the inner loop is header {1024 bytes with "
+            "16384//f, i.e. files of 1..%d reads of 16384 bytes; and channels 8191, 8192, 8193, 16385 - one "
+            "frame of 16382, 16384, 16386, 32770 bytes - x 1..3 frames) the inner loop is header {1024 bytes with "
             "optional fields, 1025, 1500 and 4000 bytes, 2048 bytes with every mandatory field beyond "
             "byte 1024} x "
             "access {suffix-inferred path, path below dotted directories, path+force_as, open "
@@ -1187,7 +1227,8 @@ def subchecks(tier, seed):
             "{None,int16,int32,float32,float64} (wds_read_signal takes no dtype: None only): "
             "array_equal, same shape and dtype as stored.astype(requested); non-trivial = more than "
             "one read" % (kmax, kmax + 1),
-            axes=dict(container=["sph01", "sph10"], channels=SPH_CHANNELS,
+            axes=dict(container=["sph01", "sph10"], channels=SPH_CHANNELS, wide_channels=SPH_WIDE_CHANNELS,
+                      wide_counts=SPH_WIDE_COUNTS,
                       count="k*q-1..k*q+1, floor(k*16384/f)-1..+1, k=1..%d" % kmax, header=SPH_HEADERS,
                       access=[list(map(str, a)) for a in _sph_accesses()], requested=REQUESTED),
             replay=lambda case: _replay(case, seed)),
